@@ -2,8 +2,11 @@
 # seed_run.sh <patch> <check ids...> : apply a seeded change to /repo, run the checks, undo it straight afterwards.
 P=$1; shift
 git -C /repo apply "$P" || exit 2
+# evidence and replays written while a seeded change is applied must not survive: keep the clean ones aside
+rm -rf /verif/.cache/evidence.keep && cp -r /verif/evidence /verif/.cache/evidence.keep
 for c in "$@"; do
   /verif/check $c --tier ${TIER:-quick} 2>/dev/null | grep -E "VIOLATION|KNOWN|INFRA|tier=" | cut -c1-260
 done
 git -C /repo checkout -- .
+rm -rf /verif/evidence && mv /verif/.cache/evidence.keep /verif/evidence
 git -C /repo status --short | head -3
